@@ -349,7 +349,41 @@ def reachable_fns(prog, roots, crates=("abyssiniandb",), stop=()):
                     stack.append(x)
         for c in prog.closures_of(fn):
             stack.append(c)
+        # statics / thread-locals / consts mentioned by the body: their initialiser functions run on first use
+        for item in _items_mentioned(fn):
+            for g in prog.fns.values():
+                if g.id.startswith(item + "::") and g.id not in seen:
+                    stack.append(g)
     return seen
+
+
+def _items_mentioned(fn):
+    out = set()
+
+    def op(o):
+        if isinstance(o, dict) and o.get("k") == "c" and o.get("cdef"):
+            out.add(o["cdef"])
+    for blk in fn.blocks:
+        if blk["cleanup"]:
+            continue
+        for s in blk["stmts"]:
+            if s["s"] == "assign":
+                r = s["rhs"]
+                if r["rv"] == "tls":
+                    out.add(r.get("def"))
+                for x in _rv_operands(r):
+                    op(x)
+        t = blk["term"]
+        if t and t["t"] == "call":
+            for a in t["args"]:
+                op(a)
+            c = t.get("callee") or ""
+            # `KEY.with(..)` on a thread_local!: the LocalKey constant is the receiver
+            for a in t["args"]:
+                if isinstance(a, dict) and a.get("k") == "c" and a.get("cdef"):
+                    out.add(a["cdef"])
+    out.discard(None)
+    return out
 
 
 # ---------------------------------------------------------------------------
